@@ -446,6 +446,27 @@ func c11Check(e *c11Env, r *mc.Result) mc.Verdict {
 		if toRelays > 0 && toNode2 == 0 && failing != "signer2" && failing != "signer-high" {
 			return fail("registrations-not-handed-to-secondary-node", fmt.Sprintf("round %d: the relays received %d registrations, the second beacon node none (failing party: %q)", rd, toRelays, failing))
 		}
+		// ... and per validator: whoever was registered with some relay in this round is announced to the beacon nodes
+		// too (a signing request that fails for one of its relays does not undo that)
+		for vi := 1; vi <= 3; vi++ {
+			pub := e.accts[vi].pubkey()
+			withRelay, withNode2 := false, false
+			for _, addr := range []string{c11R1, c11R2} {
+				for _, g := range e.relays[addr].regs {
+					if g.round == rd && g.pubkey == pub {
+						withRelay = true
+					}
+				}
+			}
+			for _, g := range e.nodes[1].regs {
+				if g.round == rd && g.pubkey == pub {
+					withNode2 = true
+				}
+			}
+			if withRelay && !withNode2 {
+				return fail("validator-not-announced-to-secondary-node", fmt.Sprintf("round %d: validator %d was registered with a relay but no registration of it was handed to the second beacon node (failing party: %q)", rd, vi, failing))
+			}
+		}
 		for vi := 1; vi <= 3; vi++ {
 			exp := docs[dn].exp(vi)
 			pub := e.accts[vi].pubkey()
